@@ -254,3 +254,40 @@ def named_table_discrepancies():
     if not _tables_checked:
         _tables_checked.append(check_named_tables())
     return _tables_checked[0]
+
+
+_toy_der = []
+
+
+def toy_der_ok():
+    """Can a user-defined curve be made findable by OID by appending it to
+    ecdsa.curves.curves (what `registered` does)?  If a future library looks
+    curves up differently, DER/PEM *loading* on toy curves is simply not
+    exercised (named curves still are) instead of raising false alarms."""
+    if not _toy_der:
+        from ecdsa import curves as lc
+        from .model import curves as mcurves
+        ok = True
+        # two probes: an index built lazily on the *first* lookup would find
+        # the first probe curve but not one appended afterwards
+        for mc in mcurves.toy()[:2]:
+            c = fresh_lib_curve(mc)
+            try:
+                lc.curves.append(c)
+                ok = ok and (lc.find_curve(tuple(mc.oid)) is c)
+            except Exception:
+                ok = False
+            finally:
+                try:
+                    lc.curves.remove(c)
+                except ValueError:
+                    pass
+        _toy_der.append(ok)
+    return _toy_der[0]
+
+
+def fmt_ok(toy, fmt):
+    """Is this serialisation format usable for *loading* on this curve?"""
+    if not toy or toy_der_ok():
+        return True
+    return not any(t in fmt for t in ("der", "pem", "pkcs8"))
